@@ -273,6 +273,13 @@ theorem rerun_cause (s s' : St) (e : Ev) (r : Nat) (y : Rec)
       · simp at hs; subst hs; simp at hnew
       all_goals cases hs
     · cases hs
+  | envErr a e0 =>
+    simp only [step, stepI] at hs
+    split at hs
+    · split at hs
+      · simp at hs; subst hs; simp at hnew
+      all_goals cases hs
+    · cases hs
   | giveUp n =>
     simp only [step, stepI] at hs
     split at hs
